@@ -35,11 +35,17 @@ def main():
     rec = {"name": name, "confirmed": False}
     try:
         rc, out = sh(["git", "apply", "--check", patch], wt)
+        apply_cmd = ["git", "apply", patch]
         if rc != 0:
-            rec["error"] = "patch does not apply to the current tree: " + out[-500:]
-            print(json.dumps(rec))
-            return 1
-        sh(["git", "apply", patch], wt)
+            # the tree moved on since the change was written (repairs landed nearby): three-way apply
+            rc3, out3 = sh(["git", "apply", "-3", "--check", patch], wt)
+            if rc3 != 0:
+                rec["error"] = "patch does not apply to the current tree: " + out[-500:]
+                print(json.dumps(rec))
+                return 1
+            apply_cmd = ["git", "apply", "-3", patch]
+            rec["applied_three_way"] = True
+        sh(apply_cmd, wt)
         rc, out = sh(["go", "build", "./..."], wt)
         rec["builds"] = rc == 0
         rc, out = sh(["go", "test", "-vet=off", "-count=1"] + PKGS, wt)
@@ -52,7 +58,8 @@ def main():
         rc, out = sh(run, wt)
         rec["demo_fails_with_patch"] = rc != 0
         rec["demo_output_with_patch"] = "\n".join(out.splitlines()[-12:])[:1500]
-        sh(["git", "apply", "-R", patch], wt)
+        sh(["git", "checkout", "-q", "--", "."], wt)
+        sh(["git", "reset", "-q", "--hard"], wt)
         rc, out = sh(run, wt)
         rec["demo_passes_without_patch"] = rc == 0
         if rc != 0:
@@ -69,7 +76,7 @@ def main():
         shutil.rmtree(wt2, ignore_errors=True)
         subprocess.run(["git", "-C", "/repo", "worktree", "prune"], capture_output=True)
         sh(["git", "-C", "/repo", "worktree", "add", "-q", "--detach", wt2, "HEAD"], "/repo")
-        sh(["git", "apply", patch], wt2)
+        sh(apply_cmd, wt2)
         try:
             for cid in checks:
                 t0 = time.time()
